@@ -439,6 +439,9 @@ type DefaultServerDispatcher struct {
 	network             ws.Server
 	mutex               sync.RWMutex
 	completionMutex     sync.Mutex
+	// sendMutex keeps the removal of a client's queue (write lock) apart from the senders that have fetched
+	// that queue and are about to push a request into it (read lock).
+	sendMutex sync.RWMutex
 }
 
 // Handler function to be invoked when a request gets canceled (either due to timeout or to other external factors).
@@ -506,7 +509,9 @@ func (d *DefaultServerDispatcher) CreateClient(clientID string) {
 }
 
 func (d *DefaultServerDispatcher) DeleteClient(clientID string) {
+	d.sendMutex.Lock()
 	d.queueMap.Remove(clientID)
+	d.sendMutex.Unlock()
 	if d.IsRunning() {
 		d.notifyMessagePump(clientID)
 	}
@@ -539,11 +544,18 @@ func (d *DefaultServerDispatcher) SendRequest(clientID string, req RequestBundle
 	if d.network == nil {
 		return fmt.Errorf("cannot send request %v, no network server was set", req.Call.UniqueId)
 	}
+	// Fetching the client's queue and pushing the request are one step with respect to the removal of the queue:
+	// a sender that fetched the queue just before the client disconnected (and connected again) would otherwise
+	// push its request into the queue of the connection that is gone, where nobody ever looks at it again.
+	d.sendMutex.RLock()
 	q, ok := d.queueMap.Get(clientID)
 	if !ok {
+		d.sendMutex.RUnlock()
 		return fmt.Errorf("cannot send request %s, no client %s exists", req.Call.UniqueId, clientID)
 	}
-	if err := q.Push(req); err != nil {
+	err := q.Push(req)
+	d.sendMutex.RUnlock()
+	if err != nil {
 		return err
 	}
 	d.notifyMessagePump(clientID)
